@@ -59,11 +59,17 @@ def rename_source(source: str, r: dict) -> str:
 		offsets.append(offsets[-1] + len(l))
 	for tok in result:
 		quoted = tok.type == tokenize.STRING and tok.string[1:-1] in r and tok.string[0] == tok.string[-1] and tok.string[0] in '\'"'  # quoted annotation 'C0'
-		if (tok.type == tokenize.NAME and tok.string in r) or quoted:
+		# quoted composite annotation 'G0[L0]' / 'dict[str, G0[L0]]': the identifiers inside are renamed
+		composite = tok.type == tokenize.STRING and not quoted and tok.string[0] == tok.string[-1] and tok.string[0] in '\'"' and '[' in tok.string \
+			and re.fullmatch(r'[A-Za-z_][\w\[\], |.]*\]', tok.string[1:-1]) is not None
+		if (tok.type == tokenize.NAME and tok.string in r) or quoted or composite:
 			start = offsets[tok.start[0] - 1] + tok.start[1]
 			end = offsets[tok.end[0] - 1] + tok.end[1]
 			pieces.append(source[pos:start])
-			pieces.append(tok.string[0] + r[tok.string[1:-1]] + tok.string[-1] if quoted else r[tok.string])
+			if composite:
+				pieces.append(tok.string[0] + re.sub(r'[A-Za-z_]\w*', lambda m: r.get(m.group(0), m.group(0)), tok.string[1:-1]) + tok.string[-1])
+			else:
+				pieces.append(tok.string[0] + r[tok.string[1:-1]] + tok.string[-1] if quoted else r[tok.string])
 			pos = end
 	pieces.append(source[pos:])
 	return ''.join(pieces)
